@@ -115,6 +115,9 @@ def judge(histories):
     return out
 
 
+BIG_COUNTS = [2**60 - 2, 2**60 - 1, 2**60, 2**60 + 1, 2**61, 2**62 - 1, 2**62, 2**63 - 1, 2**63, 2**64 - 1]
+
+
 class C08(Prop):
     id = "C08"
     thorough_rounds = 10   # thorough tier: this many independently seeded rounds of the random generators (duplicates dropped)
@@ -184,6 +187,9 @@ class C08(Prop):
 
         # D-08 witnesses first
         add(self.server_line(["o0", "conn.A", "conn.S:0"]))
+        for n in BIG_COUNTS:
+            add(self.server_line(["o0", "conn.A"] + ["conn.S:%d" % n, "o4", "conn.A", "conn.S:1", "o8", "conn.A", "conn.S:0"]))
+            add(self.server_line(["conn.S:%d" % n, "o0", "conn.A", "conn.S:%d" % n]))
         add(self.server_line(["o8", "o4", "conn.A", "conn.A", "conn.S:0"]))
         add(self.server_line(["conn.S:2", "o0", "conn.A", "o4", "conn.A", "o8", "conn.A", "o12", "conn.A"]))
         add(self.server_line(["conn.AL", "o0", "o4", "conn.S:1", "o8", "o12", "o16"]))
@@ -257,7 +263,9 @@ class C08(Prop):
                     ops.append("o%d" % i)
                     opened.append(i)
                 elif r < 0.55:
-                    ops.append("conn.S:%d" % rng.randrange(4))
+                    # mostly 0..3; sometimes a count at which last-accepted + 4n leaves the stream-id range
+                    # (saturation at the largest client-initiated bidirectional id, 2^62-4) or the usize range
+                    ops.append("conn.S:%d" % (rng.randrange(4) if rng.random() < 0.9 else rng.choice(BIG_COUNTS)))
                 elif r < 0.75 and not loop:
                     ops.append("conn.A")
                 elif r < 0.75 and loop and "conn.AL" not in ops:
